@@ -74,13 +74,13 @@ ASSUMPTIONS = [
     "hypothesis (C02-T1 / C03-T1 on that arithmetic come from the C01 capstone). Hypotheses every closure keeps: the key "
     "octets read back as q*G, hash160 / sha256 commitments, Core's checkSignatureEncoding of the DER bytes, FindAndDelete "
     "side conditions of the legacy templates (`hsc` for bare / p2sh multisig), the C12 commitment check on the script path",
-    "the seventeen `*_secp256k1_built` theorems (BIP322 p2wpkh / p2sh_p2wpkh / p2pkh; p2pk, p2pkh, p2wpkh, p2sh_p2wpkh; multisig bare / p2sh / p2wsh / "
+    "the twenty `*_secp256k1_built` theorems (BIP322 p2wpkh / p2sh_p2wpkh / p2pkh; wsh and_v(pk,pk) / or_d(pk,pkh) / and_v(pk,older); p2pk, p2pkh, p2wpkh, p2sh_p2wpkh; multisig bare / p2sh / p2wsh / "
     "p2sh_p2wsh over `BuiltBySecp`; wsh_pk, sh_wsh_pk, sh_pk, wsh_pkh, sh_wsh_pkh, sh_pkh) drop the two encoding hypotheses: "
     "the key is `secpCompressedKey (q*G)` (= C01's bytes_from_point model on that point) and is PROVED to read back as q*G "
     "(built_key_parses), DER(sign(low_s)) || ht is PROVED to pass checkSignatureEncoding under every flag set "
     "(built_sig_passes_encoding); they assume instead 0 < q < n and ht & 0x7f in {1,2,3} (facts about the request); "
-    "multisig keeps `hkeys` (all n keys compressed) and `hsc`; p2pkh / sh(pkh) keep `hne`. The miniscript-template "
-    "`_secp256k1` closures still carry `hp` / `henc`",
+    "multisig keeps `hkeys` (all n keys compressed) and `hsc`; p2pkh / sh(pkh) keep `hne`. The older "
+    "`_secp256k1` forms (kept) still carry `hp` / `henc`; no `_secp256k1` closure is left without a `_built` form",
 ]
 
 NUMS = "50929b74c1a04954b78b4b6035e97a5e078a5a0f28ec96d547bfee9ace803ac0"
